@@ -20,7 +20,7 @@ fn meta(ctx: &Ctx) -> Meta {
     Meta {
         level: "exploration",
         rule: format!(
-            "operation histories over {{sign with RSA-4096, protected RSA-3072, Ed25519, ECDSA-P256; clear signatures; write + re-parse; a FAILING signing attempt (protected key without passphrase), which must leave the package unchanged}}; signing times drawn per (history, step) from {{a fixed past instant, 0, now, now + 400 days, 2100-01-01, u32::MAX}}: ALL sequences up to length {} from built packages with and without files, seeded random histories up to length {} from further built packages and from the six asset packages (unsigned, RSA-signed, IMA-signed, source rpm). After EVERY step a 3-line sequential model (last signer since the last clear) is compared with: verify_signature under each of the four public keys (must succeed exactly for the last signer), signature_key_ids() (exactly that key's id, derived independently with the pgp crate), verify_digests(), and byte identity of header+payload with the starting package. distinct_nontrivial = distinct (start, history prefix) states checked",
+            "operation histories over {{sign with RSA-4096, protected RSA-3072, Ed25519, ECDSA-P256 (random histories also RSA-2048 and a key pair generated at run time: Ed25519 primary and its Ed25519 signing SUBKEY, which must verify with that key and report the subkey's id); clear signatures; write + re-parse; a FAILING signing attempt (protected key without passphrase), which must leave the package unchanged}}; signing times drawn per (history, step) from {{a fixed past instant, 0, now, now + 400 days, 2100-01-01, u32::MAX}}: ALL sequences up to length {} from built packages with and without files, seeded random histories up to length {} from further built packages and from the six asset packages (unsigned, RSA-signed, IMA-signed, source rpm). After EVERY step a 3-line sequential model (last signer since the last clear) is compared with: verify_signature under each of the four public keys (must succeed exactly for the last signer), signature_key_ids() (exactly that key's id, derived independently with the pgp crate), verify_digests(), and byte identity of header+payload with the starting package. distinct_nontrivial = distinct (start, history prefix) states checked",
             ctx.tier.pick(3, 4),
             ctx.tier.pick(8, 12)
         ),
@@ -37,6 +37,8 @@ enum Op {
     /// a signing attempt that fails (passphrase-protected key without its passphrase): must return
     /// an error and leave the package as it was
     FailSign,
+    /// sign with the signing SUBKEY of the generated key pair (keys[GEN] is its primary key)
+    SignSub,
 }
 
 fn op_name(o: Op, keys: &[Key]) -> String {
@@ -45,6 +47,7 @@ fn op_name(o: Op, keys: &[Key]) -> String {
         Op::Clear => "clear".into(),
         Op::Reparse => "write+parse".into(),
         Op::FailSign => "failed-sign(protected key without passphrase)".into(),
+        Op::SignSub => "sign(subkey of generated-ed25519)".into(),
     }
 }
 
@@ -53,6 +56,8 @@ enum Last {
     None,
     Foreign,
     Key(usize),
+    /// signed by the subkey of keys[i]: verifies with keys[i], reports the SUBKEY's id
+    Sub(usize),
 }
 
 fn key_id_hex(k: &Key) -> String {
@@ -68,11 +73,11 @@ fn header_payload(pkg: &Package) -> Result<Vec<u8>, String> {
 }
 
 /// check the state after a step against the model; returns violations
-fn check_state(pkg: &Package, last: Last, keys: &[Key], key_ids: &[String], start_hp: &[u8], after: &str) -> Vec<(String, String)> {
+fn check_state(pkg: &Package, last: Last, keys: &[Key], key_ids: &[String], sub_id: Option<&String>, start_hp: &[u8], after: &str) -> Vec<(String, String)> {
     let mut v = Vec::new();
     for (i, k) in keys.iter().enumerate() {
         let ok = pkg.verify_signature(&k.verifier);
-        let should = last == Last::Key(i);
+        let should = last == Last::Key(i) || last == Last::Sub(i);
         match (should, &ok) {
             (true, Err(e)) => v.push((format!("last-signer-does-not-verify:{}:after-{after}", k.name), format!("the package was last signed with {} but does not verify with it: {e}", k.name))),
             (false, Ok(())) => v.push((format!("other-key-verifies:{}:after-{after}", k.name), format!("the package verifies with {} although the last signer is {:?}", k.name, last))),
@@ -85,6 +90,11 @@ fn check_state(pkg: &Package, last: Last, keys: &[Key], key_ids: &[String], star
             Ok(list) if list.len() == 1 && list[0].eq_ignore_ascii_case(&key_ids[i]) => {}
             Ok(list) => v.push((format!("key-ids-wrong:after-{after}"), format!("signature_key_ids() = {list:?}, expected [{}] ({})", key_ids[i], keys[i].name))),
             Err(e) => v.push((format!("key-ids-error:after-{after}"), format!("signature_key_ids() fails on a package signed with {}: {e}", keys[i].name))),
+        },
+        Last::Sub(i) => match (&ids, sub_id) {
+            (Ok(list), Some(sid)) if list.len() == 1 && list[0].eq_ignore_ascii_case(sid) => {}
+            (Ok(list), sid) => v.push((format!("key-ids-wrong:subkey:after-{after}"), format!("signature_key_ids() = {list:?}, expected the signing subkey {sid:?} of {}", keys[i].name))),
+            (Err(e), _) => v.push((format!("key-ids-error:subkey:after-{after}"), format!("signature_key_ids() fails on a package signed with the subkey of {}: {e}", keys[i].name))),
         },
         Last::None => {
             if let Ok(list) = &ids {
@@ -109,7 +119,7 @@ fn check_state(pkg: &Package, last: Last, keys: &[Key], key_ids: &[String], star
     v
 }
 
-fn run_history(start: &Package, start_last: Last, hist: &[Op], keys: &[Key], key_ids: &[String], bad_signer: Option<&rpm::signature::pgp::Signer>) -> Result<(Vec<(String, String, usize)>, usize), String> {
+fn run_history(start: &Package, start_last: Last, hist: &[Op], keys: &[Key], key_ids: &[String], bad_signer: Option<&rpm::signature::pgp::Signer>, sub: Option<&(usize, rpm::signature::pgp::Signer<pgp::SignedSecretSubKey>, String)>) -> Result<(Vec<(String, String, usize)>, usize), String> {
     let start_hp = header_payload(start)?;
     let mut pkg = start.clone();
     let mut last = start_last;
@@ -121,12 +131,13 @@ fn run_history(start: &Package, start_last: Last, hist: &[Op], keys: &[Key], key
             Op::Clear => "clear",
             Op::Reparse => "reparse",
             Op::FailSign => "failed-sign",
+            Op::SignSub => "sign-with-subkey",
         };
         match op {
             Op::Sign(k) => {
                 // signing times: mostly a fixed past instant, but also the epoch, the current time,
                 // instants in the future of this host's clock and the last representable second
-                let h = hist.iter().fold(step as u64 + 1, |a, o| a.wrapping_mul(0x100000001b3).wrapping_add(match o { Op::Sign(k) => 10 + *k as u64, Op::Clear => 1, Op::Reparse => 2, Op::FailSign => 3 }));
+                let h = hist.iter().fold(step as u64 + 1, |a, o| a.wrapping_mul(0x100000001b3).wrapping_add(match o { Op::Sign(k) => 10 + *k as u64, Op::Clear => 1, Op::Reparse => 2, Op::FailSign => 3, Op::SignSub => 4 }));
                 let now = std::time::SystemTime::now().duration_since(std::time::UNIX_EPOCH).map(|d| d.as_secs() as u32).unwrap_or(1_700_000_000);
                 match (h >> 7) % 10 {
                     0 => pkg.sign_with_timestamp(&keys[*k].signer, 0u32),
@@ -147,6 +158,11 @@ fn run_history(start: &Package, start_last: Last, hist: &[Op], keys: &[Key], key
                 let b = pkg_bytes(&pkg).map_err(|e| format!("write fails: {e}"))?;
                 pkg = Package::parse(&mut &b[..]).map_err(|e| format!("re-parse fails: {e}"))?;
             }
+            Op::SignSub => {
+                let Some((gi, signer, _)) = sub else { continue };
+                pkg.sign_with_timestamp(signer, 1_600_000_000u32 + step as u32).map_err(|e| format!("sign with subkey fails: {e}"))?;
+                last = Last::Sub(*gi);
+            }
             Op::FailSign => {
                 let Some(bad) = bad_signer else { continue };
                 if pkg.sign_with_timestamp(bad, 1_600_000_000u32).is_ok() {
@@ -156,7 +172,7 @@ fn run_history(start: &Package, start_last: Last, hist: &[Op], keys: &[Key], key
             }
         }
         states += 1;
-        for (k, w) in check_state(&pkg, last, keys, key_ids, &start_hp, after) {
+        for (k, w) in check_state(&pkg, last, keys, key_ids, sub.map(|s| &s.2), &start_hp, after) {
             out.push((k, w, step));
         }
     }
@@ -203,6 +219,19 @@ fn run(ctx: &Ctx, rep: &Report) {
             return;
         }
     };
+    // a sixth key pair generated now: Ed25519 primary + Ed25519 signing subkey
+    let mut keys = keys;
+    let sub = match generate_key_with_signing_subkey() {
+        Ok(sk) => {
+            keys.push(sk.primary);
+            Some((keys.len() - 1, sk.sub_signer, sk.sub_id))
+        }
+        Err(e) => {
+            rep.note(format!("could not generate a key with a signing subkey ({e}): subkey operations skipped"));
+            None
+        }
+    };
+    let keys = keys;
     let key_ids: Vec<String> = keys.iter().map(key_id_hex).collect();
     rep.note(format!("key ids derived with the pgp crate: {:?}", keys.iter().map(|k| k.name).zip(key_ids.iter()).collect::<Vec<_>>()));
     // the exhaustive alphabet uses the four keys the property names; the fifth (RSA-2048) joins the random histories
@@ -254,6 +283,28 @@ fn run(ctx: &Ctx, rep: &Report) {
             jobs.push((s, h.clone()));
         }
     }
+    if let Some((gi, _, _)) = &sub {
+        // the generated key: its primary and its signing subkey in short histories with the others
+        let g = *gi;
+        let with_sub: Vec<Vec<Op>> = vec![
+            vec![Op::SignSub],
+            vec![Op::SignSub, Op::Reparse],
+            vec![Op::SignSub, Op::Clear],
+            vec![Op::SignSub, Op::Sign(g)],
+            vec![Op::Sign(g), Op::SignSub],
+            vec![Op::Sign(g), Op::Reparse, Op::SignSub, Op::Reparse],
+            vec![Op::Sign(2), Op::SignSub],
+            vec![Op::SignSub, Op::Sign(2), Op::Reparse],
+            vec![Op::SignSub, Op::Sign(0)],
+            vec![Op::Sign(3), Op::Clear, Op::SignSub, Op::FailSign],
+            vec![Op::SignSub, Op::SignSub, Op::Reparse, Op::Clear, Op::Sign(g)],
+        ];
+        for s in 0..starts.len() {
+            for h in &with_sub {
+                jobs.push((s, h.clone()));
+            }
+        }
+    }
     if ctx.tier.pick(false, true) {
         // one level deeper on the smallest start
         for h in all_sequences(&ops, 5).into_iter().filter(|h| h.len() == 5) {
@@ -266,7 +317,8 @@ fn run(ctx: &Ctx, rep: &Report) {
             let mut r = Rng::for_case(ctx.seed, "C10-hist", (s * 1000 + j) as u64);
             let len = 1 + r.usize(maxlen);
             // cheap keys preferred in random histories (protected RSA-3072 signing costs 270 ms)
-            let h: Vec<Op> = (0..len).map(|_| [Op::Sign(2), Op::Sign(3), Op::Sign(0), Op::Sign(4), Op::Sign(3), Op::Sign(1), Op::Clear, Op::Reparse, Op::Reparse, Op::FailSign][r.usize(10)]).collect();
+            let gen_ops = if let Some((g, _, _)) = &sub { [Op::SignSub, Op::Sign(*g)] } else { [Op::Sign(2), Op::Sign(3)] };
+            let h: Vec<Op> = (0..len).map(|_| [Op::Sign(2), Op::Sign(3), Op::Sign(0), Op::Sign(4), Op::Sign(3), Op::Sign(1), Op::Clear, Op::Reparse, Op::Reparse, Op::FailSign, gen_ops[0], gen_ops[1]][r.usize(12)]).collect();
             jobs.push((s, h));
         }
     }
@@ -277,7 +329,7 @@ fn run(ctx: &Ctx, rep: &Report) {
         let names: Vec<String> = hist.iter().map(|o| op_name(*o, &keys)).collect();
         let w = |step: usize| json!({"start": label, "history": names, "failing_step": step});
         let mut local: BTreeMap<String, u64> = BTreeMap::new();
-        match guard(|| run_history(start, *last0, hist, &keys, &key_ids, bad_signer.as_ref())) {
+        match guard(|| run_history(start, *last0, hist, &keys, &key_ids, bad_signer.as_ref(), sub.as_ref())) {
             Ok(Ok((vs, states))) => {
                 rep.eval(states as u64);
                 *local.entry("states_checked".into()).or_insert(0) += states as u64;
